@@ -95,6 +95,13 @@ func tryParseFloat32(s []byte) (float32, bool) {
 //
 // For example, roundUpTo(0.0001, 100) -> 0.01.
 func roundUpTo(value float32, granularity float64) float32 {
+	// A value which is already the float32 closest to a multiple of
+	// 1/granularity stays as it is.  Otherwise float32(0.07), which is
+	// slightly larger than 0.07, would be rounded up to 0.08, and
+	// rounding a rounded value again would change it.
+	if r := math.Round(float64(value) * granularity); float32(r/granularity) == value {
+		return value
+	}
 	if value > 0 {
 		return float32(math.Ceil(float64(value)*granularity) / granularity)
 	} else if value < 0 {
